@@ -98,7 +98,7 @@ prop('C01', level='proof', modules=['Polyseed.Props.C01'], suites=['pack'],
      note=PROOF_NOTE + 'NormOK (NFKD(NFC(phrase)) = words joined by single spaces) is a statement about Unicode data outside the repository: validated by exhaustive execution over all 20480 words and separators with two independent normalisers, not proved.',
      technique='Lean 4 proof (round trip through packing, checksum, tokeniser and table lookup; hypothesis NormOK) + API round trips with real normalisers',
      assumptions=['NormOK for non-ASCII phrases; allocation succeeds (explicit hypothesis); coin < 2048'])
-prop('C07', level='proof', modules=['Polyseed.Props.C07'], suites=['find'], extra='extra_prefix_words',
+prop('C07', level='proof', modules=['Polyseed.Props.C07'], suites=['tables', 'find'], extra='extra_prefix_words',
      text='Theorems about the tables REGENERATED from the current tree: frozen (= the committed pinned lists: names, flags, separators, all 20480 words), tables_ok / find_full_word (every word is found at its own index by the library search: bsearch decision-tree certificate for the 8 sorted lists under the language comparator, first-match + bitmap distinctness for the 2 Chinese lists), words_distinct, word_bytes, prefix4_distinct (bitmap over base-27 prefix codes), prefix_languages, accents_imply_compose, empty_token. All by kernel evaluation (decide +kernel), ~1 min on 16 cores when a list changed. The normalisation clauses are validated by exhaustive execution (S-norm), not proved. The literal clause "no word is a prefix of another" is false for 49 English + 30 Spanish three-letter words: KNOWN-FINDINGs, one per word.',
      note=PROOF_NOTE + 'Pinned/ is trusted to be the published lists (generated once from the pinned commit). NFKD/NFC facts are about Unicode data outside the repository: executed exhaustively with unicodedata and utf8proc.',
      technique='Lean 4 proof by kernel evaluation over the regenerated tables (certificate checkers proved sound) + exhaustive normaliser execution',
@@ -790,6 +790,48 @@ def extra_malformed(ctx, pid, viol, stats):
     st['wall'] = time.time() - t0
 
 
+CBMC_FUNCS = {'C02': ['mul2', 'eval'], 'C03': ['pack', 'unpack'], 'C05': ['mul2', 'eval'], 'C06': ['store_load'], 'C10': ['features'], 'C11': ['birthday'],
+              'C01': ['pack', 'unpack'], 'C13': ['pack', 'unpack', 'store_load']}
+
+
+def extra_cbmc(ctx, pid, viol, stats):
+    """supporting evidence for the tie: CBMC proves for ALL inputs of the fixed-size arithmetic functions that the C code of the
+    current tree satisfies the closed form / the property assertions of harness/cbmc_ref.c (never a substitute for a theorem)"""
+    import re
+    import shutil
+    t0 = time.time()
+    st = stats.setdefault('cbmc', dict(evaluations=0, distinct=set(), samples=[], variants=['cbmc 6.11'], wall=0.0, exhaustive=True, mismatches=0, hist={},
+                                       note='CBMC equivalence of the repository functions with closed forms over ALL inputs (model validation, not proof): ' + ', '.join(CBMC_FUNCS.get(pid, []))))
+    if not shutil.which('cbmc') or not shutil.which('goto-cc'):
+        st['hist']['skipped'] = 'cbmc not on PATH'
+        return
+    gb = os.path.join(ctx.tree.dir, 'ref.gb')
+    if not os.path.exists(gb):
+        srcs = [os.path.join(core.REPO, 'src', f) for f in ('gf.c', 'storage.c', 'features.c')]
+        r = core.run(['goto-cc', '-DNDEBUG'] + core.INC + [os.path.join(core.VERIF, 'harness', 'cbmc_ref.c')] + srcs + ['-o', gb + '.tmp'])
+        if r.returncode != 0:
+            viol.append(Violation('correspondence', 'cbmc-build', 'the CBMC equivalence harness no longer compiles against the tree (internal interfaces changed): ' + r.stdout[-1200:], suite='cbmc'))
+            return
+        os.rename(gb + '.tmp', gb)
+    for fn in CBMC_FUNCS.get(pid, []):
+        r = core.run(['cbmc', gb, '--function', 'check_' + fn, '--unwind', '160', '--unwinding-assertions', '--trace'])
+        st['evaluations'] += 1
+        st['distinct'].add(fn)
+        ok = 'VERIFICATION SUCCESSFUL' in r.stdout
+        m = re.search(r'\*\* (\d+) of (\d+) failed', r.stdout)
+        st['hist'][fn] = m.group(0) if m else ('ok' if ok else 'no verdict')
+        if not ok:
+            failed = re.findall(r'\[check_\w+\.assertion\.\d+\] line \d+ ([^:]+): FAILURE', r.stdout)
+            assigns = re.findall(r'^\s+(\w[\w\.\[\]]*)=(\S+) \(', r.stdout, re.M)
+            inputs = ['%s=%s' % (a, b) for a, b in assigns if a.split('.')[0].split('[')[0] in ('x', 't', 'm', 'f', 'c', 'buf', 'd', 'p')][:60]
+            viol.append(Violation('oracle', 'cbmc:' + fn, 'CBMC finds an input on which the C code violates "%s" (check_%s in harness/cbmc_ref.c); assignments of the counterexample: %s' % (
+                '; '.join(sorted(set(failed))[:4]) or 'an assertion', fn, ' '.join(inputs)[:1500]),
+                script=['cbmc <ref.gb built from the tree> --function check_%s --unwind 160 --unwinding-assertions --trace' % fn] + inputs[:40],
+                suite='cbmc', variant='cbmc', found_input=bool(failed)))
+    st['samples'].append(['check_' + f for f in CBMC_FUNCS.get(pid, [])])
+    st['wall'] = time.time() - t0
+
+
 def context_script(script, res, i):
     """script lines needed to reproduce op i: for stateless unit ops just the line, else the prefix"""
     head = res.c_ops[i].head
@@ -864,6 +906,8 @@ def check(ctx, pid):
             run_api(ctx, pid, viol, stats, **P['api'])
         if P.get('extra'):
             globals()[P['extra']](ctx, pid, viol, stats)
+        if pid in CBMC_FUNCS and ctx.tree is not None:
+            extra_cbmc(ctx, pid, viol, stats)
     return report(ctx, pid, P, viol, stats, proof, t0)
 
 
